@@ -20,7 +20,8 @@ EXPLANATION = (
     "happens once, at construction."
     " (R10) in every update form the bound test, the stored element and the equilibration entries use the same index (row/column of that entry for matrices); tuple forms without stores delegate unchanged; (R1, sdp) is_chordal_decomposed is true exactly when decomposition data exists."
     " R2 also: every returning path of the matrix form passes through the sparsity comparison; R4 also: the cached norms are initialised and recomputed with the same (infinity) norm."
-    " (R11) index_to_coord, which gives the index forms the row and column of a stored entry, inverts colptr (C16.R7 re-run).")
+    " (R11) index_to_coord, which gives the index forms the row and column of a stored entry, inverts colptr (C16.R7 re-run)."
+    ' R1 also: the gate answers Ok only on a path that found is_presolved() (and, in sdp builds, is_chordal_decomposed()) false - it does not consult the mutable settings.')
 ASSUMPTIONS = ['rustc MIR construction and trait resolution are correct', 'algebra primitives have their documented meaning']
 
 MUTATORS = {'copy_from_slice', 'lrscale', 'lscale', 'rscale', 'scale', 'hadamard', 'copy_from', 'fill', 'set', 'index_mut'}
@@ -47,6 +48,11 @@ def gate(rep, F, tag):
                 R.check(out is not None and 'ChordalDecompositionIsActive' in out, 'err|decomposed' + tag, 'decomposed solver: check returns %s' % out, chk.loc())
             else:
                 R.check(out is not None and 'Result::Ok' in out, 'ok' + tag, 'unreduced solver: check returns %s' % out, chk.loc())
+                # Ok only on a path that has *seen* that the data is neither presolved nor decomposed: whether a reduction happened is a fact
+                # about the data built at construction, not about the (public, mutable) settings of today
+                R.check(bool(pres) and val[pres[0]] == 0 and (not tag or (bool(ch) and val[ch[0]] == 0)), 'ok-only-if-unreduced' + tag,
+                        'the gate answers Ok on the path %s without having found is_presolved()%s false: a setting flipped after construction '
+                        'opens the gate on reduced, re-indexed data' % ({k[:50]: v for k, v in val.items()}, ' and is_chordal_decomposed()' if tag else ''), chk.loc())
         R.check(any(k.startswith('is_presolved(') for v, o in rows for k in v), 'tests-presolve' + tag, 'the gate does not test is_presolved', chk.loc())
         ip = F.one(name='is_presolved', adt='DefaultProblemData')
         R.check(canon(ip.sym_local(0)) == 'is_some(self.presolver)', 'is_presolved' + tag, 'is_presolved returns %s' % canon(ip.sym_local(0)), ip.loc())
